@@ -538,6 +538,36 @@ Definition cancel_class (c : conn_case) : Z :=
        then 2
   else 0.
 
+(* the length prefixes that arrive in more than one piece: (first byte, last byte of the prefix) *)
+Fixpoint pspans_from (max : Z) (st : rst) (start : Z) (l : list (Z * Z)) : list (Z * Z) :=
+  match l with
+  | [] => match st with RLen _ _ => [(start, 10 ^ 15)] | _ => [] end
+  | (t, b) :: r =>
+      let start' := match st with RIdle => t | _ => start end in
+      let st' := fst (feed_byte max st b) in
+      match st, st' with
+      | RLen _ _, RLen _ _ => pspans_from max st' start' r
+      | RLen _ _, _ => (start', t) :: pspans_from max st' start' r
+      | _, _ => pspans_from max st' start' r
+      end
+  end.
+
+(* the schedules on which the UNCHANGED handler is known to depend on segmentation / timing:
+   1 = a raced adapter call completes inside a frame (K1); 2 = a keep-alive tick that is acted
+   upon falls inside a frame, or any tick falls inside a split length prefix (K4).  A tick inside
+   the BODY of a frame while keep-alive handling is off is harmless (deferred and then skipped). *)
+Definition harmful_class (c : conn_case) : Z :=
+  let sp := frame_spans c in
+  let psp := pspans_from (cf_max_len (cc_cfg c)) RIdle 0 (timed_bytes (cc_segs c)) in
+  let tr := case_trace c in
+  if existsb (fun ev => match snd ev with
+                        | TRes (CDiscover) _ | TRes (CFilter _ _ _ _ _ _ _) _ | TRes (CSelect _ _ _ _ _ _ _) _ => inside sp (fst ev)
+                        | _ => false end) tr then 1
+  else if existsb (fun ev => match snd ev with TTick => inside sp (fst ev) | _ => false end) tr then 2
+  else if existsb (fun sp1 => existsb (fun k => (fst sp1 <=? k * P) && (k * P <? snd sp1)) [1; 2; 3; 4; 5; 6; 7; 8; 9; 10; 20; 30; 37; 38]) psp
+       then 2
+  else 0.
+
 (* final verdicts for the byte-level families: a disagreement inside a known class is
    reported as 16 * class (+2 if the monitor is false too): a listed known finding, never silently dropped *)
 Definition with_class (c : conn_case) (code : Z) : Z :=
@@ -584,12 +614,23 @@ Definition sends_wellformed (c : conn_case) : bool :=
   forallb (fun e => match e with TSend p _ => negb (String.eqb (p_name p) "?") | _ => true end)
           (obs_sends (intent_of c =? 0) false (cc_sent c)).
 
+(* the property itself on the implementation's observation: outside the known classes the handler
+   does exactly what it does when every frame arrives whole (M1 on the reader's output) - packets
+   sent (Keep Alive left out), services consulted, outcome *)
+Definition obs_untimed_impl (c : conn_case) : list (Z * bytes) * list call * option outcome :=
+  (map (fun x => (snd (fst x), snd x)) (filter (fun x => negb (snd (fst x) =? 4) || negb (Z.of_nat (length (snd x)) =? 8)) (cc_sent c)),
+   map snd (cc_calls c), Some (cc_outcome c)).
+Definition seg_independent (c : conn_case) : bool :=
+  let m1 := run1 (case_oracles c) (cc_cfg c) (case_env c) (frames_of (cf_max_len (cc_cfg c)) (cc_segs c)) in
+  negb (harmful_class c =? 0) || Z.testbit (cc_flags c) 3 || obsu_eqb (obs_untimed m1) (obs_untimed_impl c).
+
 Definition check_c08c (c : conn_case) : Z :=
   let k := corr_conn2 c in
   if k =? 4 then 4 else
   k + moni (negb (outcome_eqb (cc_outcome c) (OErr KPanic))
             && negb (Z.testbit (cc_flags c) 1)
             && sends_wellformed c
+            && seg_independent c
             && (if Z.testbit (cc_flags c) 0 then true
                 else match first_badlen (frames_of (cf_max_len (cc_cfg c)) (cc_segs c)) with
                      | Some _ => true
